@@ -717,4 +717,116 @@ theorem checkCompatibilityAndDownsample_ok {a b x y : MH} {ia : Bool} {cn cs : O
       · exact hm (by rw [← fx.2.1, ← fy.2.1]; exact h2)
       · exact hm (by rw [← fx.2.2, ← fy.2.2]; exact h3)
 
+
+/-! ### the head of `contained_by` / `max_containment` (`PyCmp.prepare`) -/
+
+theorem prepare_noDs (s o : MH) : PyCmp.prepare s o false = .ok (s, o) := by
+  unfold PyCmp.prepare; simp
+
+theorem prepare_same {s o : MH} (h : Py.scaledProp s = Py.scaledProp o) (ds : Bool) :
+    PyCmp.prepare s o ds = .ok (s, o) := by
+  unfold PyCmp.prepare; simp [h]
+
+/-- the threshold of a sketch produced by Python `downsample(scaled=sc)` depends on `sc` only -/
+def pyDownMaxHash (sc : Nat) : Nat := mhR (if mhP sc ≠ 0 then scP (mhP sc) else 0)
+
+theorem pyDownsample_maxHash {s r : MH} {sc : Nat} (h : Py.downsample s none (some sc) = .ok r) :
+    r.maxHash = pyDownMaxHash sc := by
+  unfold Py.downsample Py.downsampleParams at h
+  simp only at h
+  split at h
+  · cases h
+  · rename_i n mh hp
+    split at hp
+    · cases hp
+    · split at hp
+      · cases hp
+      · simp only [Except.ok.injEq, Prod.mk.injEq] at hp
+        obtain ⟨rfl, rfl⟩ := hp
+        unfold Py.downsampleWith at h
+        split at h
+        · cases h
+        · rename_i a ha
+          have hm : a.maxHash = pyDownMaxHash sc := by
+            unfold Py.mkMinHash at ha
+            by_cases c1 : mhP sc ≠ 0 ∧ (0 : Nat) ≠ 0
+            · exact absurd rfl c1.2
+            · rw [if_neg c1] at ha
+              simp only at ha
+              generalize hsc : (if mhP sc ≠ 0 then scP (mhP sc) else 0) = sc' at ha
+              by_cases c2 : sc' ≠ 0 ∧ (0 : Nat) ≠ 0
+              · exact absurd rfl c2.2
+              · rw [if_neg c2] at ha
+                by_cases c3 : True ∧ sc' = 0
+                · rw [if_pos c3] at ha; cases ha
+                · rw [if_neg c3] at ha
+                  cases ha
+                  unfold pyDownMaxHash
+                  rw [hsc]; rfl
+          split at h
+          · unfold Py.setAbundances at h
+            split at h
+            · cases h
+              unfold MH.ffiSetAbundances
+              simp only [if_true]
+              exact ((addManyAb_frame a.clear (MH.sortPairs s.pairs)).2.1).trans hm
+            · cases h
+          · cases h
+            exact ((addMany_frame a s.mins).2.1).trans hm
+
+/-- with the flag set and different scaled values, `prepare` hands on two sketches that satisfy the
+    invariant, kept k-mer size / molecule / seed, and share one threshold -/
+theorem prepare_ds_ok {a b x y : MH} (hne : Py.scaledProp a ≠ Py.scaledProp b)
+    (h : PyCmp.prepare a b true = .ok (x, y)) :
+    Py.downsample a none (some (max (Py.scaledProp a) (Py.scaledProp b))) = .ok x ∧
+    Py.downsample b none (some (max (Py.scaledProp a) (Py.scaledProp b))) = .ok y ∧
+    Inv x ∧ Inv y ∧ x.maxHash = y.maxHash ∧
+    (x.ksize = a.ksize ∧ x.hf = a.hf ∧ x.seed = a.seed) ∧ (y.ksize = b.ksize ∧ y.hf = b.hf ∧ y.seed = b.seed) := by
+  unfold PyCmp.prepare at h
+  simp only [true_and, ne_eq, hne, not_false_eq_true, if_true] at h
+  cases hx : Py.downsample a none (some (max (Py.scaledProp a) (Py.scaledProp b))) with
+  | error e => rw [hx] at h; cases h
+  | ok x' =>
+    cases hy : Py.downsample b none (some (max (Py.scaledProp a) (Py.scaledProp b))) with
+    | error e => rw [hx, hy] at h; cases h
+    | ok y' =>
+      rw [hx, hy] at h
+      simp only [Except.ok.injEq, Prod.mk.injEq] at h
+      obtain ⟨rfl, rfl⟩ := h
+      exact ⟨rfl, rfl, (invx_pyDownsample hx).1, (invx_pyDownsample hy).1,
+        (pyDownsample_maxHash hx).trans (pyDownsample_maxHash hy).symm,
+        pyDownsample_frame hx, pyDownsample_frame hy⟩
+
+/-- whatever `prepare` returns kept k-mer size, molecule and seed of the operands -/
+theorem prepare_frame {a b x y : MH} {ds : Bool} (h : PyCmp.prepare a b ds = .ok (x, y)) :
+    (x.ksize = a.ksize ∧ x.hf = a.hf ∧ x.seed = a.seed) ∧ (y.ksize = b.ksize ∧ y.hf = b.hf ∧ y.seed = b.seed) := by
+  by_cases hc : ds = true ∧ Py.scaledProp a ≠ Py.scaledProp b
+  · obtain ⟨rfl, hne⟩ := hc
+    have := prepare_ds_ok hne h
+    exact ⟨this.2.2.2.2.2.1, this.2.2.2.2.2.2⟩
+  · unfold PyCmp.prepare at h
+    rw [if_neg hc] at h
+    simp only [Except.ok.injEq, Prod.mk.injEq] at h
+    obtain ⟨rfl, rfl⟩ := h
+    exact ⟨⟨rfl, rfl, rfl⟩, ⟨rfl, rfl, rfl⟩⟩
+
+theorem CoreMismatch.prepared {a b x y : MH} {ds : Bool} (hm : CoreMismatch a b)
+    (h : PyCmp.prepare a b ds = .ok (x, y)) : CoreMismatch x y := by
+  obtain ⟨fx, fy⟩ := prepare_frame h
+  unfold CoreMismatch
+  rw [fx.1, fx.2.1, fx.2.2, fy.1, fy.2.1, fy.2.2]; exact hm
+
+theorem countCommon_false_error {x y : MH} (h : ¬ Compatible x y) : ∃ e, Cmp.countCommon x y false = .error e := by
+  unfold Cmp.countCommon
+  simp only [Bool.false_eq_true, false_and, if_false]
+  exact countCommonNoDs_error h
+
+theorem containedByCore_error {x y : MH} (h : ¬ Compatible x y) : ∃ e, PyCmp.containedByCore x y = .error e := by
+  obtain ⟨e, he⟩ := countCommon_false_error h
+  exact ⟨e, by unfold PyCmp.containedByCore; rw [he]⟩
+
+theorem maxContainmentCore_error {x y : MH} (h : ¬ Compatible x y) : ∃ e, PyCmp.maxContainmentCore x y = .error e := by
+  obtain ⟨e, he⟩ := countCommon_false_error h
+  exact ⟨e, by unfold PyCmp.maxContainmentCore; rw [he]⟩
+
 end Sm
